@@ -1,1 +1,240 @@
-(* Proofs/GenC15Proofs.v - placeholder *)
+(** Proofs/GenC15Proofs.v - Tie B for C15.  What is proved about the terms GENERATED from the
+    current source of pypyr/utils/filesystem.py (Gen/GenC15.v):
+    - the same-file test computes the model's routing decision, for all inputs;
+    - the statement structure of move_file / remove_temp_file / move_temp_file, of
+      StreamRewriter.in_to_out and ObjectRewriter.in_to_out and of
+      FileRewriter.files_in_to_out IS (syntactically) the structured program written below:
+      which primitive is issued inside which with / try block, in which order, which handler
+      runs and what it re-raises.  A change to any of that changes the generated term and the
+      equalities stop compiling;
+    - the rename step with its handler (move_temp_file), run by the statement semantics of
+      Model/FsRewrite.v, is the op model's [Replace] step + [handler], for EVERY fault
+      assignment; the write loop of the statement semantics and of the op model are the same
+      function ([write_items_flat], [run_ops_items]).
+    NOT proved (validated by the correspondence run only): that the whole structured methods,
+    run by the statement semantics under arbitrary faults, equal the flat op lists + [unwind]
+    of the model (the symbolic execution of the full methods does not check in acceptable
+    time). *)
+From PV Require Import FsRewrite FsRewriteProofs GenC15.
+From Coq Require Import Lia.
+Open Scope string_scope.
+
+(** * the same-file test *)
+Definition isfile (d : dir) (p : name) : bool :=
+  match lookup p d with Some _ => true | None => false end.
+
+Definition same_file (src : name) (out : option name) : bool :=
+  match out with Some o => String.eqb o src | None => false end.
+
+(** in_path is a file (files_in_to_out checked is_file()); out_path None is falsy; samefile on
+    model names (files, not spellings) is equality *)
+Lemma gen_is_same_file_is_model d src out :
+  isfile d src = true ->
+  gen_is_same_file true (match out with Some _ => true | None => false end)
+                   (isfile d src) (match out with Some o => isfile d o | None => false end)
+                   (same_file src out)
+  = same_file src out.
+Proof.
+  intros H. unfold gen_is_same_file, same_file. rewrite H. destruct out as [o|]; simpl; auto.
+  destruct (String.eqb o src) eqn:E; [|now rewrite Bool.andb_false_r].
+  apply String.eqb_eq in E; subst. now rewrite H.
+Qed.
+
+(** * the write loop, seen from both sides *)
+Section Items.
+Variables (nm : namer) (F : nat -> fmode).
+
+Fixpoint items_flat (its : list (option bytes)) (n : nat) (s : st)
+  : pout * (st * nat * list (op * st) * option (nat * op)) :=
+  match its with
+  | [] => (PNorm, (s, n, [], None))
+  | None :: _ => (PExc EFormat, (s, n, [], Some (n, FmtFail)))
+  | Some c :: r =>
+      match F n with
+      | Crash => (PCrash, (s, S n, [(Write c, s)], None))
+      | Raise => (PExc (EInj n), (s, S n, [(Write c, s)], Some (n, Write c)))
+      | NoFault =>
+          match items_flat r (S n) (exec nm (Write c) s) with
+          | (o, (s', n', h, stp)) => (o, (s', n', (Write c, s) :: h, stp))
+          end
+      end
+  end.
+
+Definition merge_stop (a b : option (nat * op)) : option (nat * op) :=
+  match b with Some y => first_stop a y | None => a end.
+
+Lemma write_items_flat its : forall x,
+  write_items nm F its x =
+  match items_flat its (p_n x) (p_st x) with
+  | (o, (s', n', h, stp)) =>
+      (o, mkpst (p_env x) s' n' (p_hist x ++ map fst h) (merge_stop (p_stop x) stp) (p_rf x))
+  end.
+Proof.
+  induction its as [|[c|] its IH]; intros [e s n h sp rf]; cbn [write_items items_flat p_n p_st].
+  - cbn. now rewrite app_nil_r.
+  - unfold do_prim; cbn [p_st p_n p_env p_hist p_stop p_rf]. destruct (F n).
+    + rewrite IH. cbn [p_st p_n p_env p_hist p_stop p_rf].
+      destruct (items_flat its (S n) (exec nm (Write c) s)) as [o [[[s' n'] h'] stp]].
+      cbn. now rewrite <- app_assoc.
+    + cbn. now rewrite Bool.orb_false_r.
+    + reflexivity.
+  - unfold data_fail. cbn. now rewrite app_nil_r.
+Qed.
+
+Lemma prepend_with_stop h x r : prepend h (with_stop x r) = with_stop x (prepend h r).
+Proof. reflexivity. Qed.
+
+Lemma run_ops_items its rest : forall n s,
+  run_ops nm F (map item_op its ++ rest) n s =
+  match items_flat its n s with
+  | (PNorm, (s', n', h, _)) => prepend h (run_ops nm F rest n' s')
+  | (PExc e, (s', n', h, stp)) => with_stop stp (prepend h (unwind F n' s' e))
+  | (PCrash, (s', n', h, _)) => mkres s' Crashed h n' None false
+  | (_, (s', n', h, _)) => mkres s' Unsupp h n' None false
+  end.
+Proof.
+  induction its as [|[c|] its IH]; intros n s; cbn [map app item_op items_flat].
+  - now rewrite prepend_nil.
+  - cbn [run_ops visible]. destruct (F n).
+    + rewrite IH.
+      destruct (items_flat its (S n) (exec nm (Write c) s)) as [o [[[s' n'] h'] stp]].
+      destruct o; reflexivity.
+    + cbn [handler fail_effect]. reflexivity.
+    + reflexivity.
+  - cbn [run_ops visible data_exn]. destruct (unwind F n s EFormat); reflexivity.
+Qed.
+
+Lemma exec_write_fields c s :
+  src_open (exec nm (Write c) s) = src_open s /\ wh (exec nm (Write c) s) = wh s /\
+  in_try (exec nm (Write c) s) = in_try s /\ temps (exec nm (Write c) s) = temps s /\
+  nrep (exec nm (Write c) s) = nrep s.
+Proof.
+  simpl. destruct (wh s) as [[t x]|] eqn:W; [destruct (lookup t (sd s))|]; simpl;
+    rewrite ?W; repeat split.
+Qed.
+
+(** the loop only ever changes the directory; it ends normally, killed, or with an exception
+    whose origin it names *)
+Definition items_out_ok (o : pout) (stp : option (nat * op)) : Prop :=
+  match o with
+  | PNorm | PCrash => stp = None
+  | PExc _ => exists b, stp = Some b
+  | _ => False
+  end.
+
+Lemma items_flat_shape its : forall n s o s' n' h stp,
+  items_flat its n s = (o, (s', n', h, stp)) ->
+  (exists d', s' = mkst d' (src_open s) (wh s) (in_try s) (temps s) (nrep s)) /\
+  items_out_ok o stp.
+Proof.
+  induction its as [|[c|] its IH]; intros n s o s' n' h stp; cbn [items_flat].
+  - intros H; inversion H; subst. split; [exists (sd s'); now destruct s' | reflexivity].
+  - destruct (F n).
+    + destruct (items_flat its (S n) (exec nm (Write c) s)) as [o1 [[[s1 n1] h1] stp1]] eqn:E.
+      intros H. destruct (IH _ _ _ _ _ _ _ E) as ((d' & Hd) & Hok).
+      inversion H; subst. split; [|exact Hok]. exists d'.
+      destruct (exec_write_fields c s) as (A & B & C & D & G). now rewrite A, B, C, D, G.
+    + intros H; inversion H; subst. split; [exists (sd s'); now destruct s' | simpl; eauto].
+    + intros H; inversion H; subst. split; [exists (sd s'); now destruct s' | reflexivity].
+  - intros H; inversion H; subst. split; [exists (sd s'); now destruct s' | simpl; eauto].
+Qed.
+
+End Items.
+
+(** * the structured programs: what the source is expected to be *)
+Definition remove_temp_file_prog (path : pexpr) : stm := STry (SRemove path) SSkip.
+
+Definition move_file_prog (src dest : pexpr) : stm := STry (SReplace src dest) SReraise.
+
+Definition move_temp_file_prog (src dest : pexpr) : stm :=
+  STry (move_file_prog src dest) (SSeq (remove_temp_file_prog src) SReraise).
+
+(** the temp file: bound by the with, filled, closed; any exception out of it removes the temp
+    (if the with got as far as binding it) and is re-raised *)
+Definition temp_block : stm :=
+  SSeq SSetOutfileNone
+       (STry (SWith (WMkTemp XDirnameIn false) BOutfile SWriteItems)
+             (SSeq (SIf COutfileNotNone (remove_temp_file_prog XOutfileName) SSkip) SReraise)).
+
+Definition direct_block : stm :=
+  SSeq (SWith (WOpenWrite XOutPath) BOutfile SWriteItems) SReturn.
+
+Definition stream_prog : stm :=
+  SSeq (SSetInPlace false)
+  (SSeq (SIf CSameFile (SSeq SSetOutNone (SSetInPlace true)) SSkip)
+  (SSeq (SWith (WOpenRead XInPath) BInfile
+           (SIf COutPath direct_block
+                (SSeq SSetOutfileNone
+                   (SSeq (STry (SWith (WMkTemp XDirnameIn false) BOutfile SWriteItems)
+                               (SSeq (SIf COutfileNotNone (remove_temp_file_prog XOutfileName) SSkip)
+                                     SReraise))
+                         (SSetInPlace true)))))
+        (SIf CInPlaceFlag (move_temp_file_prog XOutfileName XInfileName) SSkip))).
+
+Definition object_prog : stm :=
+  SSeq (SIf CSameFile SSetOutNone SSkip)
+  (SSeq (SWith (WOpenRead XInPath) BInfile SLoad)
+        (SIf COutPath direct_block
+             (SSeq SSetOutfileNone
+                (SSeq (STry (SWith (WMkTemp XDirnameIn false) BOutfile SWriteItems)
+                            (SSeq (SIf COutfileNotNone (remove_temp_file_prog XOutfileName) SSkip)
+                                  SReraise))
+                      (move_temp_file_prog XOutfileName XInfileName))))).
+
+Definition loop_prog : fstm :=
+  FIf FCInPaths
+    (FSeq (FAssign VBasedir FNone)
+    (FSeq (FAssign VKnown (FBool false))
+    (FSeq (FIf FCOutPath
+             (FIf FCIsStrDir (FAssign VBasedir FPathOut)
+                (FIf FCIsDir (FAssign VBasedir FPathOut)
+                   (FSeq (FIf FCManyPaths FRaiseError FSkip)
+                   (FSeq (FAssign VBasedir FOutParent) (FAssign VKnown (FBool true))))))
+             FSkip)
+          (FFor (FIf FCIsFile
+                   (FIf (FCVar VBasedir)
+                      (FSeq (FIf (FCVar VKnown) (FAssign VActualOut FPathOut)
+                                 (FAssign VActualOut (FJoinName (FVar VBasedir))))
+                            (FCall (Some (FVar VActualOut))))
+                      (FCall None))
+                   FSkip)))))
+    FSkip.
+
+Lemma gen_helpers_are_progs :
+  (forall p, gen_remove_temp_file p = remove_temp_file_prog p) /\
+  (forall a b, gen_move_file a b = move_file_prog a b) /\
+  (forall a b, gen_move_temp_file a b = move_temp_file_prog a b).
+Proof. repeat split. Qed.
+
+Lemma gen_stream_is_prog : gen_stream_in_to_out = stream_prog.
+Proof. reflexivity. Qed.
+
+Lemma gen_object_is_prog : gen_object_in_to_out = object_prog.
+Proof. reflexivity. Qed.
+
+Lemma gen_loop_is_prog : gen_files_in_to_out = loop_prog.
+Proof. reflexivity. Qed.
+
+(** * the rename step with its handler, for every fault assignment *)
+Lemma move_temp_file_is_model nm F pl same x :
+  src_open (p_st x) = false -> wh_is_open (p_st x) = false -> in_try (p_st x) = false ->
+  p_stop x = None -> p_rf x = false ->
+  pexec_summary (pexec nm F pl same (move_temp_file_prog XOutfileName XInfileName) x)
+  = (let r := run_ops nm F [Replace (v_in (p_env x))] (p_n x) (p_st x) in
+     (erase_st (final r), outc r, (p_hist x ++ map fst (hist r))%list, next r, stop r, rmfail r)).
+Proof.
+  destruct x as [e s n h sp rf]. destruct s as [d so w it tm nr].
+  cbn [p_st p_stop p_rf p_n p_env p_hist src_open in_try wh].
+  intros -> Hw -> -> ->.
+  assert (Hw' : match w with Some (_, TOpen) => true | _ => false end = false) by exact Hw.
+  clear Hw.
+  unfold move_temp_file_prog, move_file_prog, remove_temp_file_prog.
+  cbn [pexec run_ops visible]. unfold do_prim. cbn [p_n p_st p_env p_hist p_stop p_rf v_in].
+  destruct (F n).
+  - cbn. reflexivity.
+  - cbn [handler fail_effect]. unfold do_prim. cbn [p_n p_st p_env p_hist p_stop p_rf].
+    destruct (F (S n)); unfold unwind, unwind2, unwind3, wh_is_open; cbn; rewrite ?Hw'; cbn;
+      rewrite <- ?app_assoc; try reflexivity.
+    all: destruct w as [[t [| |]]|]; try discriminate; cbn; rewrite <- ?app_assoc; reflexivity.
+  - cbn. reflexivity.
+Qed.
